@@ -57,11 +57,14 @@ def answer (toks : List String) : String :=
       (tmiCall n.toNat! t.toNat! n2.toNat! t2.toNat! nb.toInt! (odata dO) (odata dS)).str
   | ["call", "mi", n, t, nb, zdiv, sc, rm, d] =>
       (miCall n.toNat! t.toNat! nb.toInt! (zdiv == "1") (orat sc) (orat rm) (odata d)).str
-  | ["call", "vcfb", n, i] => (vcfbCall n.toNat! i.toInt!).str
-  | ["call", "ecfb", n] => (verdictOf (cfbSizes n.toNat!) (ecfbTrace n.toNat!)).str
+  | ["call", "vcfb", n, i, na] => (vcfbCall n.toNat! i.toInt! na.toNat!).str
+  | ["call", "ecfb", n, na] => (ecfbCall n.toNat! na.toNat!).str
   | ["adaptive", n, a, sn, ord, rec] =>
+      -- `n` is n_time; the matrix dimension is the number of rows of `rec`
+      let r := intMat rec
+      (if WhileKernels.tablesOK r.length n.toNat! (intMat sn) (ints ord) r then "valid|" else "any|") ++
       WhileKernels.showOutcome
-        (WhileKernels.adaptive n.toNat! a.toNat! (intMat sn) (ints ord) (intMat rec))
+        (WhileKernels.adaptive n.toNat! a.toNat! (intMat sn) (ints ord) r)
   | _ => "bad-request"
 
 def main : IO Unit := runDriver answer
